@@ -88,7 +88,8 @@ func (s sortableByProperty) Less(i, j int) bool {
 		value := ToLiquid(s.data[i])
 		rt := reflect.ValueOf(value)
 		if rt.Kind() == reflect.Map && rt.Type().Key().Kind() == reflect.String {
-			elem := rt.MapIndex(reflect.ValueOf(s.key))
+			// the key type may be a named string type
+			elem := rt.MapIndex(reflect.ValueOf(s.key).Convert(rt.Type().Key()))
 			if elem.IsValid() {
 				// a property that is a pointer (or a drop) sorts as the value a lookup of it yields
 				return ValueOf(elem.Interface()).Interface()
